@@ -109,15 +109,18 @@ def run(ctx):
     variants = []
     for c in bases:
         i, m = impl[c["id"]], model[c["id"]]
-        if not kernel.compare(ctx, c, i, m):
+        kernel.compare(ctx, c, i, m)     # a break here must not switch the property oracle off: it uses the
+        if "error" in (i.get("out") or {"error": 1}):   # implementation's own base report
             continue
         base_v = (i.get("out") or {}).get("violations") or []
         ctx.seen(c, None)
         located = [v for v in base_v if v[4] is not None]
         if not located:
             continue
+        agg_located = [v for v in located if v[5]]
         for _ in range(per):
-            v = rng.choice(located)
+            # cross-file (aggregate) violations are rarer than the others: pick them half of the time when there are any
+            v = rng.choice(agg_located) if agg_located and rng.random() < 0.5 else rng.choice(located)
             placement = rng.choice(PLACEMENTS)
             sp_kind, names = rng.choice(sorted(spellings(v[1]).items()))
             f = next(f for f in c["files"] if f["name"] == v[3])
